@@ -93,6 +93,7 @@ fn main() {
                 observers: get("observers", "0") == "1",
                 replay_welcomes: get("wreplay", "0") == "1",
                 junk: get("junk", "0") == "1",
+                adversary: get("adv", "0") == "1",
             };
             let f = std::fs::File::create(out).expect("create out");
             let mut r = Recorder { out: Box::new(std::io::BufWriter::new(f)), i: 0 };
